@@ -113,13 +113,14 @@ def h_from(h):
         rest, new = res
         rest_solv = None
     ulp = h.ulp
-    # ---- requested total and concentration
+    # ---- requested total and concentration (natively the library rounds the parsed concentration to 1e-10 in base units:
+    #      an absolute error of ulp*scale in `cu`, hence ulp*scale*den in the cross-multiplied form)
     tot = lib.total(new.contents, qb)
     h.require('total==requested', h.eq(tot, Q * PREFIX[pf], h.rs(Fr(1, 10**6) * (1 + tot))), region=p['qu'],
               detail=f"total quantity of the new solution in {p['qu']}")
     num = lib.amount(solute, new.contents.get(solute, 0), nb)
     den = lib.total(new.contents, db)
-    h.require('concentration==requested', h.eq(num * scale, ct * den, h.rs(Fr(1, 10**6) * (scale * num + ct * den) + 8 * ulp * scale)),
+    h.require('concentration==requested', h.eq(num * scale, ct * den, h.rs(Fr(1, 10**6) * (scale * num + ct * den) + 8 * ulp * scale * (1 + den))),
               region=p['cu'], detail=f"concentration of {p['solute']} in {p['cu']}")
     # ---- composition: aliquot of stock (+ aliquot of solvent container) + pure solvent only
     allowed = set(A) | set(B)
